@@ -43,6 +43,8 @@ func chSelect(sel client.Selector, args string) string {
 	return r
 }
 
+type c13Req struct{ K string }
+
 // abstract case: ch13|<nkeys>|<instances>|U:ids|U:ids...   (each update is a set of numeric ids)
 func c13Run(o *common.Out, id string, nkeys, instances int, updates [][]int) {
 	var parts []string
@@ -81,6 +83,20 @@ func c13Run(o *common.Out, id string, nkeys, instances int, updates [][]int) {
 				o.Fail(id, "instances-disagree", fmt.Sprintf("two selectors built from the same %d servers map key %q to %s and %s", len(first), k, r0, r), abstract)
 				i = instances
 			}
+		}
+	}
+	// the arguments as a pointer to a struct the caller fills in again for every request (the usual loop): the
+	// mapping depends on what the arguments ARE, not on where they are kept
+	reused := &c13Req{}
+	viaReused := make([]string, len(keys))
+	for i, k := range keys {
+		reused.K = k // consecutive requests through the same struct
+		viaReused[i] = sel.Select(context.Background(), "Arith", "Mul", reused)
+	}
+	for i, k := range keys {
+		if b := sel.Select(context.Background(), "Arith", "Mul", &c13Req{K: k}); viaReused[i] != b {
+			o.Fail(id, "unstable", fmt.Sprintf("the same arguments {K:%q} mapped to %s when passed in a struct the caller reuses for consecutive requests and to %s in a fresh one (server set unchanged)", k, viaReused[i], b), abstract)
+			break
 		}
 	}
 	cur := first
